@@ -26,14 +26,15 @@ VTT(e) ==
     ELSE IF \E k \in 1..(Len(e.orth) - 1) : ~(IsFin(e.orth[k]) /\ e.orth[k] <= OrthTol) THEN "CoreNotLeftOrthogonal"
     ELSE "ok"
 
+TRReq(e) == IF e.kind = "int" THEN [k \in 1..(Len(e.shape) + 1) |-> e.req[1]] ELSE e.req
 VTR(e) ==
     IF BadLength(e) \/ BadTRBoundary(e) THEN (IF e.out = "raised" THEN "ok" ELSE "InvalidRankNotRejected")
-    ELSE IF e.out # "ok" THEN "ok"              \* documented: r0*r1 larger than the first unfolding must raise (C09 judges that)
+    ELSE IF ~TRFeasible(e.shape, e.mode, TRReq(e)) THEN (IF e.out = "raised" THEN "ok" ELSE "InfeasibleFirstCoreNotRejected")
+    ELSE IF e.out # "ok" THEN "ValidRequestRaised"
     ELSE IF ~ChainOK(e.shape, e.fshapes) THEN "ChainRanksOrModeSizes"
     ELSE IF ~TRBoundaryOK(e.fshapes) THEN "RingNotClosed"
     ELSE IF e.ranks # RanksOf(e.fshapes) THEN "ReportedRankMismatch"
-    ELSE IF e.kind = "int" /\ \E k \in 1..Len(e.ranks) : e.ranks[k] > e.req[1] THEN "RankAboveRequest"
-    ELSE IF e.kind = "list" /\ \E k \in 1..Len(e.ranks) : e.ranks[k] > e.req[k] THEN "RankAboveRequest"
+    ELSE IF e.ranks # TRSVDRanks(e.shape, e.mode, TRReq(e)) THEN "RanksNotRequestedClipped"
     ELSE "ok"
 
 VTucker(e) ==
